@@ -115,6 +115,13 @@ var configDefaultConst = map[string]string{
 	"GetMinParameterEntropy":            "8",
 }
 
+// getters with a documented non-numeric default (config.go doc comments)
+var configMustDefault = map[string]bool{"GetRefreshTokenScopes": true, "GetSecretsHasher": true, "GetRedirectSecureChecker": true,
+	"GetPushedAuthorizeRequestURIPrefix": true, "GetJWKSFetcherStrategy": true, "GetHTTPClient": true, "GetDeviceAuthTokenPollingInterval": true}
+
+// documented list defaults
+var configDefaultList = map[string][]string{"GetRefreshTokenScopes": {"offline", "offline_access"}}
+
 // getters whose documented "unset" condition is "zero or negative"
 var configUnsetNonPositive = map[string]bool{"GetPushedAuthorizeContextLifespan": true}
 
@@ -131,6 +138,28 @@ func configDefaultShape(c *Ctx, rule, role string, fn *ssa.Function, g, want str
 	for _, p := range ex.Paths {
 		if p.Kind == "return" {
 			nRet++
+		}
+	}
+	// a documented default must exist: some exit answers with something other than the field
+	if configMustDefault[g] || configDefaultConst[g] != "" || configDefaultFn[g] != "" {
+		hasDefault := false
+		for _, p := range ex.Paths {
+			if p.Kind == "return" && len(p.Rets) == 1 && !p.Rets[0].Mentions(func(t *Term) bool { return t.Key() == fld.Key() }) {
+				hasDefault = true
+				if want, has := configDefaultList[g]; has {
+					for _, w := range want {
+						if !litHas(p.Rets[0], w) {
+							return fmt.Sprintf("%s defaults to %s; the documented default contains %q", g, clip(p.Rets[0].Pretty(), 60), w)
+						}
+					}
+					if p.Rets[0].Op == "lit" && len(p.Rets[0].Args) != len(want) {
+						return fmt.Sprintf("%s defaults to %s; the documented default is %v", g, clip(p.Rets[0].Pretty(), 60), want)
+					}
+				}
+			}
+		}
+		if !hasDefault {
+			return fmt.Sprintf("%s never returns its documented default (an unset %s is handed out as it is)", g, want)
 		}
 	}
 	for _, p := range ex.Paths {
